@@ -89,8 +89,12 @@ Proof.
   intros Hf Hne. unfold hier_raw. right. apply in_or_app. left. apply filter_In. split; [exact Hf|].
   apply negb_true_iff. apply N.eqb_neq. exact Hne.
 Qed.
-Lemma hier_class_in H f : In f (hier_class_feats H) -> In f (hier_raw H).
-Proof. intro Hf. unfold hier_raw. right. apply in_or_app. right. exact Hf. Qed.
+Lemma hier_class_in H f : In f (hier_class_feats0 H) -> In f (hier_raw H).
+Proof. intro Hf. unfold hier_raw. right. apply in_or_app. right. unfold hier_class_feats. apply in_or_app. right. exact Hf. Qed.
+Lemma hier_type_in H f : In f (hier_type_feats H) -> In f (hier_raw H).
+Proof. intro Hf. unfold hier_raw. right. apply in_or_app. right. unfold hier_class_feats. apply in_or_app. left. exact Hf. Qed.
+Lemma spec_type_sub t : incl (spec_type_features t) (M.type_feats t).
+Proof. destruct t as [| | |u hf]; simpl; try (intros x []). destruct hf; intros x [<-|[]]; simpl; auto. Qed.
 
 Lemma hier_lvl_max H : In (hier_max_lvl H) (hier_lvls H) /\ forall l, In l (hier_lvls H) -> (l <= hier_max_lvl H)%N.
 Proof. unfold hier_max_lvl, hier_lvls. split; [apply fold_max_in | intros l Hl; apply fold_max_ge; exact Hl]. Qed.
@@ -106,20 +110,20 @@ Proof.
     destruct Hf as [[<-|[]] | [Hf | [Hf | [Hf | [Hf | [Hf | Hf]]]]]]; try (apply clause_inv in Hf; destruct Hf as [-> E]).
     + apply finalize_keeps; [left; reflexivity | fne].
     + apply finalize_keeps; [|fne]. apply hier_class_in. apply existsb_exists in E. destruct E as (m & Hm & E).
-      unfold hier_class_feats. rewrite !in_app_iff. right. right. left. eapply fm_in; [exact Hm|].
+      unfold hier_class_feats0. rewrite !in_app_iff. right. right. left. eapply fm_in; [exact Hm|].
       apply in_or_app. left. apply in_clause. exact E.
-    + apply finalize_keeps; [|fne]. apply hier_class_in. apply orb_true_iff in E. unfold hier_class_feats. rewrite !in_app_iff.
+    + apply finalize_keeps; [|fne]. apply hier_class_in. apply orb_true_iff in E. unfold hier_class_feats0. rewrite !in_app_iff.
       destruct E as [E|E].
       * right. left. apply in_clause. exact E.
       * apply existsb_exists in E. destruct E as (m & Hm & E). right. right. left. eapply fm_in; [exact Hm|].
         apply in_or_app. right. apply in_clause. exact E.
-    + apply finalize_keeps; [|fne]. apply hier_class_in. unfold hier_class_feats. rewrite !in_app_iff. left.
+    + apply finalize_keeps; [|fne]. apply hier_class_in. unfold hier_class_feats0. rewrite !in_app_iff. left.
       apply in_clause. exact E.
-    + apply finalize_keeps; [|fne]. apply hier_class_in. unfold hier_class_feats. rewrite !in_app_iff. do 3 right.
+    + apply finalize_keeps; [|fne]. apply hier_class_in. unfold hier_class_feats0. rewrite !in_app_iff. do 3 right.
       apply existsb_exists in E. destruct E as (l & Hl & E). apply N.leb_le in E.
       destruct (hier_lvl_max H) as [_ Hmax]. specialize (Hmax l Hl).
       destruct (hier_max_lvl H) as [|[p|p|]]; try lia; left; reflexivity.
-    + apply finalize_keeps; [|fne]. apply hier_class_in. unfold hier_class_feats. rewrite !in_app_iff. do 3 right.
+    + apply finalize_keeps; [|fne]. apply hier_class_in. unfold hier_class_feats0. rewrite !in_app_iff. do 3 right.
       apply andb_true_iff in E. destruct E as [E1 E2]. apply negb_true_iff in E1.
       apply existsb_exists in E2. destruct E2 as (l & Hl & E2). apply N.eqb_eq in E2. subst l.
       destruct (hier_lvl_max H) as [Hin Hmax]. specialize (Hmax 1%N Hl).
@@ -127,10 +131,24 @@ Proof.
       { destruct (2 <=? hier_max_lvl H)%N eqn:X; [|reflexivity]. rewrite <- E1. symmetry. apply existsb_exists.
         exists (hier_max_lvl H). auto. }
       apply N.leb_gt in X. destruct (hier_max_lvl H) as [|[p|p|]]; try lia. left. reflexivity.
-    + apply finalize_keeps; [|fne]. apply hier_class_in. unfold hier_class_feats. rewrite !in_app_iff. do 3 right.
+    + apply finalize_keeps; [|fne]. apply hier_class_in. unfold hier_class_feats0. rewrite !in_app_iff. do 3 right.
       destruct (hier_lvl_max H) as [Hin _]. rewrite forallb_forall in E. specialize (E _ Hin). apply N.eqb_eq in E.
       rewrite E. left. reflexivity.
 Qed.
+Theorem covers_hier_full H : wf_hier H -> incl (spec_hier_full H) (kind_hier H).
+Proof.
+  intros W f Hf. unfold spec_hier_full in Hf. apply in_app_or in Hf. destruct Hf as [Hf|Hf]; [apply covers_hier; assumption|].
+  unfold spec_hier_params in Hf. apply in_flat_map in Hf. destruct Hf as (t & Ht & Hf).
+  assert (Hne : f <> f_CONTINUOUS_TIME).
+  { destruct t as [| | |u hf]; simpl in Hf; try (destruct Hf; fail). destruct hf; destruct Hf as [<-|[]]; fne. }
+  apply spec_type_sub in Hf. apply finalize_keeps; [|exact Hne]. apply hier_type_in.
+  unfold hier_param_types in Ht. unfold hier_type_feats. rewrite !in_app_iff in *. destruct Ht as [Ht|[Ht|Ht]].
+  - left. eapply fm_in; eauto.
+  - right. right. apply in_flat_map in Ht. destruct Ht as (m & Hm & Ht). apply in_flat_map. exists m. split; [exact Hm|].
+    eapply fm_in; eauto.
+  - right. left. eapply fm_in; eauto.
+Qed.
+
 (* =============================================================================================== MULTI-AGENT *)
 Ltac out Hm := exfalso; subst; vm_compute in Hm; discriminate Hm.
 
@@ -520,7 +538,7 @@ Section Sched.
       eapply fluent_unstatic; eauto.
     - do 3 right. left. apply in_flat_map in H. destruct H as (t & Ht & H).
       apply keep_in; [eapply type_unstatic; eauto|]. eapply fm_in; eauto.
-    - do 10 right. left. apply in_flat_map in H. destruct H as (a' & Ha & H). apply in_map_iff in Ha.
+    - do 11 right. left. apply in_flat_map in H. destruct H as (a' & Ha & H). apply in_map_iff in Ha.
       destruct Ha as (a & <- & Ha). apply in_flat_map. exists a. split; [exact Ha|]. apply activity_unstatic; assumption.
     - destruct (nonempty (sp_effs S)) eqn:NE; [|destruct H]. destruct H as [<-|[<-|[]]]; [vm_compute in L; discriminate L|].
       do 6 right. left. left. reflexivity.
@@ -537,10 +555,10 @@ Section Sched.
       pose proof (expr_unstatic _ _ H) as U. rewrite U. unfold sched_constraints in Hc. apply in_app_or in Hc.
       destruct Hc as [Hc|Hc].
       + do 8 right. left. apply in_flat_map. exists c. split; [exact Hc|]. unfold constraint_feats. apply in_or_app. left. exact H.
-      + do 10 right. left. apply in_flat_map in Hc. destruct Hc as (a & Ha & Hc). apply in_flat_map. exists a. split; [exact Ha|].
+      + do 11 right. left. apply in_flat_map in Hc. destruct Hc as (a & Ha & Hc). apply in_flat_map. exists a. split; [exact Ha|].
         unfold activity_feats. rewrite !in_app_iff. do 5 right. apply in_flat_map. exists c. split; [exact Hc|].
         unfold constraint_feats. apply in_or_app. left. exact H.
-    - do 11 right. apply in_flat_map in H. destruct H as (fd & Hfd & H).
+    - do 12 right. apply in_flat_map in H. destruct H as (fd & Hfd & H).
       apply keep_in; [eapply initial_unstatic; eauto|]. eapply fm_in; eauto.
   Qed.
 
@@ -552,17 +570,41 @@ Section Sched.
     - unfold spec_sched_class in Hf. rewrite !in_app_iff in Hf. destruct Hf as [[<-|[]]|[Hf|Hf]].
       + apply finalize_keeps; [left; reflexivity | fne].
       + apply clause_inv in Hf. destruct Hf as [-> E]. apply finalize_keeps; [|fne]. apply existsb_exists in E.
-        destruct E as (a & Ha & E). yin. do 10 right. left. apply in_flat_map. exists a. split; [exact Ha|].
+        destruct E as (a & Ha & E). yin. do 11 right. left. apply in_flat_map. exists a. split; [exact Ha|].
         unfold activity_feats. rewrite !in_app_iff. left. apply in_clause. exact E.
       + apply clause_inv in Hf. destruct Hf as [-> E]. apply finalize_keeps; [|fne]. apply existsb_exists in E.
         destruct E as (c & Hc & E). unfold sched_constraints in Hc. apply in_app_or in Hc. yin. destruct Hc as [Hc|Hc].
         * do 8 right. left. apply in_flat_map. exists c. split; [exact Hc|]. unfold constraint_feats. apply in_or_app. right.
           apply in_clause. exact E.
-        * do 10 right. left. apply in_flat_map in Hc. destruct Hc as (a & Ha & Hc). apply in_flat_map. exists a. split; [exact Ha|].
+        * do 11 right. left. apply in_flat_map in Hc. destruct Hc as (a & Ha & Hc). apply in_flat_map. exists a. split; [exact Ha|].
           unfold activity_feats. rewrite !in_app_iff. do 5 right. apply in_flat_map. exists c. split; [exact Hc|].
           unfold constraint_feats. apply in_or_app. right. apply in_clause. exact E.
   Qed.
+  Lemma spec_param_sub t : incl (spec_param_features t) (M.param_feats t).
+  Proof.
+    unfold M.param_feats. destruct t as [|lo hi|lo hi|u hf]; simpl.
+    - intros x [<-|[]]. left. reflexivity.
+    - destruct lo, hi; simpl; intros x [<-|[]]; left; reflexivity.
+    - intros x [<-|[]]. left. reflexivity.
+    - destruct hf; intros x [<-|[]]; simpl; auto.
+  Qed.
+
+  Theorem covers_sched_full_section : wf_sched S -> incl (spec_sched_full S) (kind_sched S).
+  Proof.
+    intros W f Hf. unfold spec_sched_full in Hf. apply in_app_or in Hf. destruct Hf as [Hf|Hf]; [apply covers_sched_section; assumption|].
+    unfold spec_sched_vars in Hf. apply in_flat_map in Hf. destruct Hf as (t & Ht & Hf).
+    assert (Hne : f <> f_CONTINUOUS_TIME).
+    { destruct t as [|lo hi|lo hi|u hf]; simpl in Hf.
+      - destruct Hf as [<-|[]]; fne.
+      - destruct (lo && hi); destruct Hf as [<-|[]]; fne.
+      - destruct Hf as [<-|[]]; fne.
+      - destruct hf; destruct Hf as [<-|[]]; fne. }
+    apply spec_param_sub in Hf. apply finalize_keeps; [|exact Hne]. yin. do 10 right. left. eapply fm_in; eauto.
+  Qed.
 End Sched.
+
+Theorem covers_sched_full S : wf_sched S -> incl (spec_sched_full S) (kind_sched S).
+Proof. apply covers_sched_full_section. Qed.
 
 Theorem covers_sched S : wf_sched S -> incl (spec_sched S) (kind_sched S).
 Proof. apply covers_sched_section. Qed.
